@@ -82,8 +82,9 @@ def step (st : Unit) (line : String) : Unit × String :=
     else (st, "bad-op")
   | "pkt" :: rest => match parseStack rest with
     | some ls => match Ser.serializeTop ls with
-      | some (bytes, sizes) => (st, s!"ok bytes={toHex bytes} L={showLayers sizes}")
-      | none => (st, "unmodelled")
+      | .ok bytes sizes => (st, s!"ok bytes={toHex bytes} L={showLayers sizes}")
+      | .throw e => (st, s!"throw {e}")
+      | .unmodelled => (st, "unmodelled")
     | none => (st, "bad-op")
   | _ => (st, "bad-op")
 
